@@ -21,7 +21,7 @@ The change should look like a plausible developer mistake or a plausible 'optimi
 
 Also write a demonstration: a Go test file or small program (plus the exact command) that FAILS with your change and PASSES without it, showing the property violated on the real code.
 
-Verify all of it yourself: build; full test suite passes with the change; demonstration fails with the change; demonstration passes with the change reverted (git stash / git checkout).
+Verify all of it yourself: build; full test suite passes with the change; demonstration fails with the change; demonstration passes with the change reverted (save `git diff` to a file, `git checkout -- .`, run, then `git apply` the file again; do NOT use `git stash`: the stash is shared with other worktrees of this repository).
 
 Deliverables, in {wt}/_seed/ (create it; keep it out of patch.diff):
   patch.diff  -- `git diff` of the source change only (must apply with `git apply` on a clean checkout of this commit)
